@@ -82,6 +82,14 @@ Definition hints_guard (h : hints) : bool :=
   else if is_range (h_func h) && (h_range h <? h_step h)%Z then (0 <=? h_range h)%Z && Z.eqb (Z.rem (h_start h + h_range h) (h_step h)) 0
   else true.
 
+(* the same guard for an engine configured with another look-back L (promql.EngineOpts.LookbackDelta; qryn passes 0 = the
+   5 min default, checked against prometheusQueryRangeRouter.go on every run): hints_guard = hints_guard_L lookback_ms *)
+Definition hints_guard_L (L : Z) (h : hints) : bool :=
+  if Z.eqb (h_step h) 0 then true
+  else if is_instant (h_func h) then (0 <? h_step h)%Z && Z.eqb (Z.rem L (h_step h)) 0
+  else if is_range (h_func h) && (h_range h <? h_step h)%Z then (0 <=? h_range h)%Z && Z.eqb (Z.rem (h_start h + h_range h) (h_step h)) 0
+  else true.
+
 (* the rows the statement of Select yields for the hints, as a function of the rows of the Prometheus meaning
    (theorem prom_rows_all_hints): processHints' three cases *)
 Definition hinted_rows (h : hints) (rows : list row) : list row :=
